@@ -14,8 +14,9 @@
               contracts: map_cycle_refines_spec (one cycle, per key), map_link_preserved, map_refines_spec (the
               whole log, hence the output dictionary stream).  No capacity restriction: slots are unbounded
               naturals and growth is part of the model.  Per-entry lemmas refines_*_partial are its ingredients.
-              NOT covered by the mirror: cycles in which the owning graph runs but the map node is not evaluated
-              (handled on the specification side by other_keys_invisible), key-set erase callbacks (invisible:
+              Cycles of the owning graph that pass the map node by (its slot does not hold the time and no input
+              ticked) are part of the run ([node_idle]); that nothing is due in them is derived from
+              map_no_child_wake_lost's invariant.  NOT covered by the mirror: key-set erase callbacks (invisible:
               a stopped and an absent entry mean the same), pause/resume, key-source replacement.
      TESTED   (not proved): that the real map node refines MapSpec - by the differential check of
               cxx/map_driver.cpp against MapSpec.run_map and by the Python oracle of gen/map.py. *)
@@ -215,13 +216,14 @@ Example c10_refine_nontrivial :
 Proof. vm_compute. split; reflexivity. Qed.
 
 (* The hypotheses of map_refines_spec are satisfiable and the conclusion is not trivial: a body with a real
-   self-wake-up (tbody_wake proves the hypothesis on bodies), two keys in two slots, a wake-up cycle with no
-   input (t = 4: the engine is there only because the parent's slot holds), a key removal whose wake-up is
-   pending, and the re-use of its slot by the re-added key. *)
+   self-wake-up (tbody_wake proves the hypothesis on bodies), two keys in two slots, a cycle that passes the
+   node by (t = 3), a wake-up cycle with no input (t = 4: the node runs only because its slot holds), a key
+   removal, and the re-use of its slot by the re-added key. *)
 Definition c10_node_hist : list (cyc * env) :=
-  let x := mkEnv (fun j => if j =? 5 then 0%nat else 1%nat) [] false in
+  let x := mkEnv (fun j => if j =? 5 then 0%nat else 1%nat) [] false false in
   [(mkCyc 1 [] [(0%nat, 1, 5, 10)], x);
    (mkCyc 2 [] [(0%nat, 1, 6, 20)], x);
+   (mkCyc 3 [] [], x);
    (mkCyc 4 [] [], x);
    (mkCyc 5 [] [(0%nat, 2, 5, 0)], x);
    (mkCyc 6 [] [(0%nat, 1, 5, 7)], x);
@@ -234,7 +236,7 @@ Example c10_node_nontrivial :
   run_ok (fun _ => tbody) [5; 6] (ninit 1) c10_node_hist /\
   map (fun te => (fst (fst te), map (fun p => (fst p, ev_out (snd p))) (snd te)))
       (rev (n_log (node_run (fun _ => tbody) [5; 6] (ninit 1) c10_node_hist)))
-  = [(1, [(5, None); (6, None)]); (2, [(5, None); (6, None)]); (4, [(5, Some 510); (6, None)]);
+  = [(1, [(5, None); (6, None)]); (2, [(5, None); (6, None)]); (3, [(5, None); (6, None)]); (4, [(5, Some 510); (6, None)]);
      (5, [(5, None); (6, Some 520)]); (6, [(5, None); (6, None)]); (9, [(5, Some 507); (6, None)])].
 Proof.
   split; [exact MapNodeFacts.tbody_wake|]. split; [|vm_compute; reflexivity].
